@@ -3977,3 +3977,100 @@ _wrap("C01", lambda ctx, v: (_combine_nonh_guards(ctx, v) if v.family == "combin
 _wrap("C04", lambda ctx, v: _merge_over_flag(ctx, v) if v.family == "merge" else None)
 _wrap("C08", lambda ctx, v: _merge_over_flag(ctx, v) if v.family == "merge" else None)
 _wrap("C03", lambda ctx, v: _merge_over_flag(ctx, v) if v.family == "merge" else None)
+
+
+# ============================================================================= additions after the second round of seeded changes
+
+def lemma_state_per_subscription(ctx, v):
+    """SCP-sub (as a premise of every once/flag/order argument): all cells of the operator are allocated per subscription
+    (share excepted; for_each: per application)."""
+    if v.family == "share":
+        return
+    scope = {"C08": ("merge",), "C09": ("concat",), "C10": ("combine",), "C11": ("flatten",), "C15": ("from_iter",), "C16": ("interval",),
+             "C19": ("take",), "C18": ("merge", "combine"), "C07": ("map", "filter", "scan", "take", "skip"),
+             "C14": ("from_iter", "map", "filter", "scan", "take", "skip", "concat", "flatten")}.get(ctx.prop)
+    if scope is not None and v.family not in scope:
+        return
+    okscopes = ("SUBSCRIPTION", "DELIVERY") + (("APPLICATION",) if v.cls == "sink" else ())
+    bad = sorted(str(c.name) for c in v.op.cells.values() if c.scope not in okscopes)
+    ctx.ob("SCP-sub", "%s:SCP-sub:state-per-subscription" % v.name, not bad,
+           "all %d cells are allocated per subscription" % len(v.op.cells) if not bad else "state shared between subscriptions: %s" % bad, v.loc(v.op.id))
+
+
+def lemma_store_every_greeting(ctx, v):
+    """ORD-store-pub (every greeting): a talkback cell that the sink-facing talkback reads is stored with the new upstream talkback on
+    every returning path of the storing handler's Handshake arm - except a path that disposes that very upstream at once."""
+    scope = {"C08": ("merge",), "C09": ("concat",), "C11": ("flatten",)}.get(ctx.prop)
+    if scope is not None and v.family not in scope:
+        return
+    tb = v.talkback_cells()
+    down_reads = set()
+    for d in v.by_role("DOWN"):
+        for e in v.all_effects(d):
+            if e.kind == "cell" and e.op in ("load", "load_full"):
+                down_reads.add(base_key(e.cell))
+    for k, members in sorted(tb.items(), key=lambda kv: str(kv[0])):
+        if k not in down_reads:
+            continue
+        for h in sorted({h for h, _ in members}):
+            probs = []
+            for p in returning(v.arm(h, "Handshake")):
+                st = [e for i, e in ev_effects(p) if e.kind == "cell" and e.op == "store" and base_key(e.cell) == k and e.value[0] == "agg" and e.value[2] == "Option::Some"
+                      and v.m.hs_payload_of(e.value) == [h]]
+                disposed = [s for s in send_sig(v, h, "Handshake", p) if s[0] == "UPTB" and s[1] in ("Terminate", "Error") and s[5][1] == ("direct", h)]
+                if not st and not disposed:
+                    probs.append("a path of the Handshake arm does not record the new upstream talkback")
+            ctx.ob("ORD-store-pub", v.key(h, "Handshake", "ORD-store-pub", "every-greeting-recorded"), not probs,
+                   "every greeting of this upstream is recorded in the cell the talkback reads (or the upstream is disposed at once)" if not probs else probs[0], v.loc(h))
+
+
+def lemma_flatten_inner_indicator(ctx, v):
+    """flatten: the outer's completion test reads the inner cell as 'an inner is active'. At the moment the outer's Data arm
+    subscribes a new inner the cell must not be empty, or an inner that greets late is invisible to that test.
+    Two instances: the switch (a previous inner was active) and the first subscription (none was)."""
+    uo = v.by_role("UP")[0]
+    ui = v.by_role("UP_INNER")[0]
+    tb = v.talkback_cells()
+    inner_k = [k for k, l in tb.items() if any(h == ui for h, _ in l)]
+    res = {"switch": [], "first": []}
+    seen = {"switch": 0, "first": 0}
+    for p in returning(v.arm(uo, "Data")):
+        sig = send_sig(v, uo, "Data", p)
+        subs = [s for s in sig if s[0] == "UPSRC_INNER" and s[1] == "Handshake"]
+        if not subs:
+            continue
+        dec = [a for (_, a, _) in guards_before(p, subs[0][4]) if a[0] in ("discr", "opt") and a[1][0] == "cellload" and base_key(a[1][1]) in inner_k]
+        was_some = None
+        if dec:
+            was_some = (dec[0][2] == 1) if dec[0][0] == "discr" else (dec[0][2] == "some")
+        writes = [e for i, e in ev_effects(p) if i < subs[0][4] and e.kind == "cell" and e.op == "store" and base_key(e.cell) in inner_k]
+        state = was_some
+        for e in writes:
+            state = not (e.value[0] == "agg" and e.value[2] == "Option::None")
+        # a pending marker (a flag raised before subscribing) would also do
+        flagged = [e for i, e in ev_effects(p) if i < subs[0][4] and e.kind == "atomic" and e.op == "store" and e.operand[3] == 1]
+        kind = "switch" if was_some else "first"
+        seen[kind] += 1
+        if not state and not flagged:
+            res[kind].append("the inner cell is empty while the new inner is being subscribed")
+    ctx.ob("ORD-pending-inner", "flatten:UP.D:ORD:inner-marked-active-at-subscribe:switch", not res["switch"] and seen["switch"] > 0,
+           "across a switch the cell never reads 'no inner' while the new inner is pending" if not res["switch"] else res["switch"][0], v.loc(uo))
+    ctx.ob("ORD-pending-inner", "flatten:UP.D:ORD:inner-marked-active-at-subscribe:first", not res["first"] and seen["first"] > 0,
+           "the first inner is marked active before it is subscribed" if not res["first"] else
+           "the first inner is subscribed while the cell still reads 'no inner': if it greets late and the outer completes first, the output completes early and the inner's data follows the Terminate",
+           v.loc(uo))
+
+
+for _pid in ("C01", "C02", "C03", "C04", "C05", "C08", "C09", "C10", "C11", "C14", "C15", "C16", "C17", "C18", "C19"):
+    _wrap(_pid, lemma_state_per_subscription)
+for _pid in ("C03", "C04", "C09", "C14", "C11", "C08"):
+    _wrap(_pid, lemma_store_every_greeting)
+for _pid in ("C02", "C11"):
+    _wrap(_pid, lambda ctx, v: lemma_flatten_inner_indicator(ctx, v) if v.family == "flatten" else None)
+def _take_flag_arms(ctx, v):
+    if v.family == "take":
+        d = v.by_role("DOWN")[0]
+        for var in ("Error", "Terminate"):
+            _ord_flag_first(ctx, v, d, var, "end-before-relay")
+for _pid in ("C04", "C07", "C02"):
+    _wrap(_pid, _take_flag_arms)
